@@ -65,6 +65,7 @@ const (
 	compLB   = 13
 	compPC   = 14
 	compHIST = 15
+	compGW   = 16
 	opMark   = 99
 	opRun    = 90
 )
@@ -144,13 +145,13 @@ var compNames = map[int64]string{
 	compRL: "nack-receivelog", compRS: "report-receiverstream", compRB: "rtpbuffer", compNG: "nack-generator",
 	compAM: "twcc-arrivalmap", compLRU: "cc-feedback-lru", compSL: "rfc8888-streamlog", compSR: "stats-recorder",
 	compSI: "stats-interceptor", compJB: "jitterbuffer-interceptor", compFF: "flexfec-encoder", compRC: "gcc-ratecalc",
-	compLB: "gcc-leakybucket", compPC: "pacing", compHIST: "rtpfb-history",
+	compLB: "gcc-leakybucket", compPC: "pacing", compHIST: "rtpfb-history", compGW: "cc-gcc-writers",
 }
 
 var setNames = map[int64]string{
 	compRL: "c12rl", compRS: "c12rs", compRB: "c12rb", compNG: "c12ng", compAM: "c12am", compLRU: "c12lru",
 	compSL: "c12sl", compSR: "c12sr", compSI: "c12si", compJB: "c12jb", compFF: "c12ff", compRC: "c12rc",
-	compLB: "c12lb", compPC: "c12pc", compHIST: "c12hist",
+	compLB: "c12lb", compPC: "c12pc", compHIST: "c12hist", compGW: "c12gw",
 }
 
 var (
@@ -365,7 +366,7 @@ func main() {
 	// one case set (one Coq shard family) per component, all with the same checkers
 	sets := map[int64]*cq.Set{}
 	var order []*cq.Set
-	for comp := int64(1); comp <= compHIST; comp++ {
+	for comp := int64(1); comp <= compGW; comp++ {
 		sets[comp] = &cq.Set{
 			Name: setNames[comp], Import: "IV.Check.C12Check", CaseType: "Z * list Z * list Z",
 			Checks: []string{"c12_mismatches", "c12_spec_failures"},
@@ -490,6 +491,11 @@ func generate(o *cq.Opts, r *rand.Rand, add func(c12Case, ...string)) {
 		for _, nm := range []int64{1, 2, 5, 10} {
 			add(ffCase(r, nm), fmt.Sprintf("media%d", nm))
 		}
+		for _, pacer := range []int64{0, 1} { // leaky bucket, NoOp pacer
+			add(gwCase(r, pacer, true), fmt.Sprintf("pacer%d", pacer), "churn")
+			add(gwCase(r, pacer, false), fmt.Sprintf("pacer%d", pacer), "random")
+		}
+		add(fqCloseCase(r), "mode1", "close")
 		for _, mode := range []int64{0, 1} {
 			add(fqCase(r, compLB, mode), fmt.Sprintf("mode%d", mode))
 			add(fqCase(r, compPC, mode), fmt.Sprintf("mode%d", mode))
